@@ -206,6 +206,12 @@ def loopSendViolations (t : List Access) : List Access :=
     ((carrierFields.contains (a.strct, a.field) && (a.method == "Send" || a.method == "SendMsg")) ||
      sendingCallbacks.contains (a.strct, a.field)))
 
+/-! ### atomic operations behind the actions of the L-atomic flow-control model -/
+
+/-- the atomic operations a function performs on a field, in source order, without repetitions -/
+def atomicOps (t : List Access) (fn strct field : String) : List String :=
+  ((t.filter (fun a => a.fn == fn && a.strct == strct && a.field == field && a.how == "atomic")).map (·.method)).eraseDups
+
 def showAccess (a : Access) : String :=
   s!"{a.strct}.{a.field} in {a.fn}: {if a.write then "write" else "read"} ({a.how}) holding {a.held}"
 
